@@ -37,11 +37,11 @@ func (c *Ctx) ruleQ1(rule string, exempt map[string]bool) {
 			if !ok {
 				continue
 			}
-			if s, neq, ok := nilCheck(iff.Cond); ok && isMasterLoad(s) {
-				if neq {
-					safeEdges[edgeKey{b, 0}] = true
-				} else {
-					safeEdges[edgeKey{b, 1}] = true
+			for edge, outcome := range []bool{true, false} {
+				for _, f := range x.implied(iff.Cond, outcome, 0) {
+					if s, neq, ok := nilCheck(f.v); ok && isMasterLoad(s) && neq == f.pol {
+						safeEdges[edgeKey{b, edge}] = true
+					}
 				}
 			}
 		}
@@ -98,7 +98,7 @@ func (c *Ctx) ruleQ1(rule string, exempt map[string]bool) {
 
 func runC16(c *Ctx) {
 	c.ruleQ1("Q1-nilable-master", map[string]bool{"PluginLoader": true})
-	c.Min("Q1-nilable-master", 8)
+	c.Min("Q1-nilable-master", 5)
 	c.Note("GenginePool.PluginLoader dereferences the master without a guard; it is not one of the property's operations and is exempt")
 	// Q2
 	c.ruleU3("Q2-instances-follow-master")
@@ -240,7 +240,68 @@ func runC16(c *Ctx) {
 	}
 	if f := c.MustFn("Q3-query-answers", "engine", "GenginePool", "IsExist"); f != nil {
 		x := c.Index(f)
+		gp := ssa.Value(f.Params[0])
+		// "the pool has no rules": gp.clear, gp.ruleBuilder == nil, or their disjunction kept in a variable
+		// isNoRules(v, pol): "v has truth value pol" means the pool has no rules
+		var isNoRules func(v ssa.Value, pol bool, d int) bool
+		isNoRules = func(v ssa.Value, pol bool, d int) bool {
+			v = x.Origin(v)
+			if d > 4 {
+				return false
+			}
+			if b, is := x.isFieldLoad(v, "GenginePool", "clear"); is && x.Origin(b) == gp {
+				return pol
+			}
+			if s, neq, isN := nilCheck(v); isN {
+				if b, is := x.isFieldLoad(s, "GenginePool", "ruleBuilder"); is && x.Origin(b) == gp {
+					return neq != pol
+				}
+			}
+			if u, isU := v.(*ssa.UnOp); isU && u.Op == token.NOT {
+				return isNoRules(u.X, !pol, d+1)
+			}
+			if ph, isPhi := v.(*ssa.Phi); isPhi && pol {
+				// a || b kept in a variable: true means one of the operands held
+				all := true
+				for i, e := range ph.Edges {
+					if bv, isC := constBool(e); isC {
+						if !bv {
+							all = false
+						}
+						p := ph.Block().Preds[i]
+						pi, isIf := p.Instrs[len(p.Instrs)-1].(*ssa.If)
+						if !isIf || len(p.Succs) != 2 {
+							all = false
+							continue
+						}
+						if !isNoRules(pi.Cond, p.Succs[0] == ph.Block(), d+1) {
+							all = false
+						}
+					} else if !isNoRules(e, true, d+1) {
+						all = false
+					}
+				}
+				return all
+			}
+			return false
+		}
+		noRulesEdges := map[edgeKey]bool{}
+		for _, blk := range f.Blocks {
+			iff, isIf := blk.Instrs[len(blk.Instrs)-1].(*ssa.If)
+			if !isIf || len(blk.Succs) != 2 {
+				continue
+			}
+			for edge, outcome := range []bool{true, false} {
+				for _, fct := range x.implied(iff.Cond, outcome, 0) {
+					if isNoRules(fct.v, fct.pol, 0) {
+						noRulesEdges[edgeKey{blk, edge}] = true
+					}
+				}
+			}
+		}
 		ok := false
+		bad := ""
+		entry := f.Blocks[0].Instrs[0]
 		eachInstr(f, func(in ssa.Instruction) {
 			st, isSt := in.(*ssa.Store)
 			if !isSt {
@@ -254,21 +315,46 @@ func runC16(c *Ctx) {
 			if el == nil {
 				return
 			}
-			if ex, isEx := x.Origin(el).(*ssa.Extract); isEx && ex.Index == 1 {
-				if lk, isLk := ex.Tuple.(*ssa.Lookup); isLk {
-					if s, _, isR := x.rangedSlice(lk.Index); isR && x.Origin(s) == ssa.Value(f.Params[1]) && len(x.GuardsOfInLoop(st.Block())) == 0 {
-						if mb, isM := x.isFieldLoad(lk.X, "KnowledgeContext", "RuleEntities"); isM {
-							if kb, isK := x.isFieldLoad(mb, "RuleBuilder", "Kc"); isK {
-								if _, isMaster := x.isFieldLoad(kb, "GenginePool", "ruleBuilder"); isMaster {
-									ok = true
+			if bt, isB := el.Type().Underlying().(*types.Basic); !isB || bt.Kind() != types.Bool {
+				return
+			}
+			if len(x.GuardsOfInLoop(st.Block())) != 0 && len(noRulesEdges) == 0 {
+				bad = "an answer is appended conditionally"
+			}
+			// every value appended is the hit of a lookup of the current name in the master's name
+			// map, or the constant false where the pool has no rules
+			for _, pv := range x.PossibleValues(el) {
+				if pv.V == nil || pv.Outside {
+					bad = "an unknown value is appended"
+					continue
+				}
+				if bv, isC := constBool(pv.V); isC && !bv {
+					if !x.reachesOnlyVia(f, entry, pv, in, noRulesEdges) {
+						bad = "false is appended although the pool may have rules"
+					}
+					continue
+				}
+				good := false
+				if ex, isEx := pv.V.(*ssa.Extract); isEx && ex.Index == 1 {
+					if lk, isLk := ex.Tuple.(*ssa.Lookup); isLk {
+						if s, l, isR := x.rangedSlice(lk.Index); isR && x.Origin(s) == ssa.Value(f.Params[1]) && l.Blocks[st.Block()] {
+							if mb, isM := x.isFieldLoad(lk.X, "KnowledgeContext", "RuleEntities"); isM {
+								if kb, isK := x.isFieldLoad(mb, "RuleBuilder", "Kc"); isK {
+									if _, isMaster := x.isFieldLoad(kb, "GenginePool", "ruleBuilder"); isMaster {
+										good = true
+										ok = true
+									}
 								}
 							}
 						}
 					}
 				}
+				if !good {
+					bad = "a value other than the hit of the master's name map is appended: " + x.Describe(pv.V)
+				}
 			}
 		})
-		c.Check("Q3-query-answers", "GenginePool.IsExist", ok, f.Pos(), "IsExist must append, for each given name in order, whether the master's name map has it")
+		c.Check("Q3-query-answers", "GenginePool.IsExist", ok && bad == "", f.Pos(), "IsExist must append, for each given name in order, whether the master's name map has it (false only where the pool has no rules): %s", bad)
 	}
 	if f := c.MustFn("Q3-query-answers", "engine", "GenginePool", "GetExecModel"); f != nil {
 		x := c.Index(f)
@@ -341,27 +427,37 @@ func (c *Ctx) ruleModelTable(rule string) {
 				em = p
 			}
 		}
-		seen := map[int64]bool{}
+		// the values of the model for which the function gets to store it: the
+		// control flow is explored with the parameter fixed to each candidate
+		// (however the validation is written: != chain, switch, helper)
+		var stores []*ssa.Store
 		eachInstr(f, func(in ssa.Instruction) {
-			if bo, ok := in.(*ssa.BinOp); ok && bo.Op == token.NEQ && em != nil && x.Origin(bo.X) == ssa.Value(em) {
-				if k, ok := constInt(bo.Y); ok {
-					seen[k] = true
+			if st, ok := in.(*ssa.Store); ok {
+				if fa, ok := st.Addr.(*ssa.FieldAddr); ok && fieldOf(fa).Name() == "execModel" && structName(fa.X.Type()) == "GenginePool" {
+					stores = append(stores, st)
 				}
 			}
 		})
+		isEm := func(v ssa.Value) bool { return em != nil && x.Origin(v) == ssa.Value(em) }
 		var got []string
-		for k := range seen {
-			got = append(got, fmt.Sprint(k))
-		}
-		sort.Strings(got)
-		okSet := len(seen) == 4
-		for _, v := range mc {
-			if !seen[v] {
+		okSet := len(stores) > 0
+		for k := int64(-2); k <= 9; k++ {
+			reach := x.reachUnder(f, isEm, k)
+			stored := false
+			for _, st := range stores {
+				if reach[st.Block()] {
+					stored = true
+				}
+			}
+			if stored {
+				got = append(got, fmt.Sprint(k))
+			}
+			if stored != (byVal[k] != "") {
 				okSet = false
 			}
 		}
 		// the rejecting edge returns an error, the accepting one stores the model
-		c.Check(rule, fnName(f)+"#accepts-exactly-four", okSet, f.Pos(), "the model is validated against %v (want exactly the four constants 1..4)", got)
+		c.Check(rule, fnName(f)+"#accepts-exactly-four", okSet, f.Pos(), "the model is stored for the values %v among -2..9 (want exactly the four constants 1..4)", got)
 	}
 	// dispatch tables
 	table := map[string]map[string]string{
@@ -374,29 +470,31 @@ func (c *Ctx) ruleModelTable(rule string) {
 		x := p.x
 		gp := ssa.Value(f.Params[0])
 		if tb, isEM := table[f.Name()]; isEM {
+			isModel := func(v ssa.Value) bool {
+				b, is := x.isFieldLoad(v, "GenginePool", "execModel")
+				return is && x.Origin(b) == gp
+			}
 			for model, want := range tb {
 				key := fmt.Sprintf("GenginePool.%s#%s", f.Name(), model)
-				found := false
+				// with gp.execModel fixed to this model, exactly the wanted engine method is reachable
+				reach := x.reachUnder(f, isModel, mc[model])
+				var called []string
+				seenC := map[string]bool{}
+				var at token.Pos = f.Pos()
 				for _, ec := range p.engineCalls {
-					// guards: gp.execModel == const(model) true, and no other execModel == k true
-					okG := false
-					for _, g := range x.GuardsOf(ec.Block()) {
-						if bo, ok := g.Cond.(*ssa.BinOp); ok && bo.Op == token.EQL && g.Pol {
-							if b, is := x.isFieldLoad(bo.X, "GenginePool", "execModel"); is && x.Origin(b) == gp {
-								if k, ok := constInt(bo.Y); ok && k == mc[model] {
-									okG = true
-								}
-							}
+					if reach[ec.Block()] {
+						n := ec.Call.StaticCallee().Name()
+						if !seenC[n] {
+							seenC[n] = true
+							called = append(called, n)
 						}
-					}
-					if okG {
-						found = ec.Call.StaticCallee().Name() == want
-						if !found {
-							c.Check(rule, key, false, ec.Pos(), "with model %s the pool calls %s, want %s", model, ec.Call.StaticCallee().Name(), want)
+						if n != want {
+							at = ec.Pos()
 						}
 					}
 				}
-				c.Check(rule, key, found, f.Pos(), "model %s must dispatch to (*Gengine).%s", model, want)
+				sort.Strings(called)
+				c.Check(rule, key, len(called) == 1 && called[0] == want, at, "with model %s the pool can call %v; it must dispatch to (*Gengine).%s only", model, called, want)
 			}
 			continue
 		}
